@@ -160,11 +160,22 @@ static void check_oracle(const char* name, int r, bool modulo_zero) {
   }
 }
 
+// for big trees (reserved_size > 255) OK() and the layout hash are printed on every 4th operation of the
+// history and on every iteration only (same rule as the model side); OK() itself is still evaluated each time
+static unsigned long opcount = 0;
 static void obs(const std::string& name, const std::string& ret, int r) {
   Sparse_Row& row = *regs[r];
   CO_Tree& t = row.tree;
+  ++opcount;
+  bool full = t.reserved_size <= 255 || opcount % 4 == 0 || name == "iter";
+  bool ok = row.OK() && t.OK();
   std::cout << name << " ret=" << ret << " S=" << t.size_ << " R=" << t.reserved_size << " D=" << t.max_depth
-            << " n=" << row.size() << " ok=" << ((row.OK() && t.OK()) ? 1 : 0) << " lay=" << layout_string(t) << "\n";
+            << " n=" << row.size() << " ok=";
+  if (full) std::cout << (ok ? 1 : 0) << " lay=" << layout_string(t) << "\n";
+  else {
+    std::cout << "~ lay=~\n";
+    if (!ok) std::cout << "!OKFALSE " << name << " reg=" << r << "\n";
+  }
 }
 
 static std::string dstr(dim d) { std::ostringstream o; o << d; return o.str(); }
@@ -494,6 +505,7 @@ int main(int argc, char** argv) {
         orc[i].clear(); orc_size[i] = 0; prevp[i] = erasedp[i] = 1;
       }
       le_reset();
+      opcount = 0;
       std::cout << "H " << tk[1] << "\n";
     }
     else if (tk[0] == "T") { tk.erase(tk.begin()); tree_op(tk); }
